@@ -79,7 +79,9 @@ def check_g(case, rec=None):
     can = np.abs(m) < 1 - 1e-9
     cannot = np.abs(m) > 1 + 1e-9
     flagged = ~np.isfinite(tth) | (tth == 0) | ~np.isfinite(e1) | ~np.isfinite(o1) | ~np.isfinite(e2) | ~np.isfinite(o2)
-    nanang = ~(np.isfinite(tth) & np.isfinite(e1) & np.isfinite(o1) & np.isfinite(e2) & np.isfinite(o2))
+    # invalid vectors are marked by tth == 0 (or NaN when |g| > 2/lambda); a finite non-zero tth together with
+    # non-finite eta/omega is neither a flag nor a usable answer
+    nanang = np.isfinite(tth) & (tth != 0) & ~(np.isfinite(e1) & np.isfinite(o1) & np.isfinite(e2) & np.isfinite(o2))
     if nanang.any():
         i = int(np.argmax(nanang))
         fails.append(fail("nan_angles", "g=%s (lambda %.4f wedge %.3f chi %.3f, m=%.6g): non-finite angles returned "
